@@ -1,4 +1,5 @@
 import AdeptProofs.Lemmas.Simd
+import AdeptProofs.Lemmas.SimdTraits
 /-!
 # C05 — vectorized evaluation equals scalar evaluation: the index and alignment logic
 
@@ -7,6 +8,10 @@ Property theorems only; helper lemmas live in `AdeptProofs/Lemmas/Simd.lean`.  A
 (vectorized overloads), `reduce_inactive` (vectorized overload), `alignment_offset_`/`alignment_offset`,
 `all_arrays_contiguous_`, `columns_aligned_` and `pack_row_major_`; checks/c05.py ties that model to the
 C++ on every run through the hook counters (H2), per instruction-set build.
+
+The trait `is_vectorizable` that selects between the packet overloads and the element-by-element overloads is part of the
+model (`Expr.vectorizable`); the census of that trait over ALL expression node classes is regenerated from the sources on every
+run (translate/vectrait.py -> `AdeptModel/Generated/VecTraits.lean`) and checked against the rule `Node.sound` here.
 
 They hold for **every** packet size `W > 1` (the code has 2, 4, 8, 16), every length, address and expression
 tree.  What they do *not* say: that a packet operation computes lane by lane what the scalar operation
@@ -43,7 +48,7 @@ theorem C05_partition_assign (cfg : Cfg) {W : Nat} (hW : 1 < W) (t : View) (rhs 
     simp only [Bool.and_eq_true, decide_eq_true_eq] at hc
     obtain ⟨_, h2, h3, h4, h5, h6, h7⟩ :=
       planCore_spec (rows := rowsOf t.outerDims) (tgt := some (arrOffset W t.a)) hW0
-        (alignmentOffset_lt (cfg := cfg) hW0 rhs) hc.1.1
+        (alignmentOffset_lt (cfg := cfg) hW0 rhs) hc.1.1.2
     exact ⟨h2, h3, h4, h5, h6, fun h => (h7 h).1, range_split h2 h3⟩
   · refine ⟨Nat.le_refl _, Nat.zero_le _, ⟨0, by simp [Plan.scalar]⟩, hW0, by simp [Plan.scalar], ?_, ?_⟩
     · intro h; exact absurd h (Nat.lt_irrefl _)
@@ -66,7 +71,7 @@ theorem C05_partition_reduce (cfg : Cfg) {W : Nat} (hW : 1 < W) (outerDims : Lis
   · rename_i hc
     simp only [Bool.and_eq_true, decide_eq_true_eq] at hc
     obtain ⟨_, h2, h3, h4, h5, h6, h7⟩ :=
-      planCore_spec (rows := rowsOf outerDims) (tgt := none) hW0 (alignmentOffset_lt (cfg := cfg) hW0 rhs) hc.1
+      planCore_spec (rows := rowsOf outerDims) (tgt := none) hW0 (alignmentOffset_lt (cfg := cfg) hW0 rhs) hc.1.2
     exact ⟨h2, h3, h4, h5, h6, fun h => (h7 h).1⟩
   · refine ⟨Nat.le_refl _, Nat.zero_le _, ⟨0, by simp [Plan.scalar]⟩, hW0, by simp [Plan.scalar], ?_⟩
     intro h; exact absurd h (Nat.lt_irrefl _)
@@ -89,7 +94,7 @@ theorem C05_body_aligned_partial (cfg : Cfg) {W : Nat} (hW : 1 < W) (t : View) (
     simp only [Bool.and_eq_true, decide_eq_true_eq] at hc
     obtain ⟨_, _, _, _, _, _, h7⟩ :=
       planCore_spec (rows := rowsOf t.outerDims) (tgt := some (arrOffset W t.a)) hW0
-        (alignmentOffset_lt (cfg := cfg) hW0 rhs) hc.1.1
+        (alignmentOffset_lt (cfg := cfg) hW0 rhs) hc.1.1.2
     obtain ⟨_, hs0, his, hmm⟩ := h7 h
     generalize (planCore W t.n (rowsOf t.outerDims) (rhs.alignmentOffset cfg W) (some (arrOffset W t.a))).istart
       = is at his ⊢
@@ -124,7 +129,7 @@ theorem C05_body_aligned (cfg : Cfg) (hfix : cfg.fixedToBoundary = true) {W : Na
     simp only [Bool.and_eq_true, decide_eq_true_eq] at hc
     obtain ⟨_, _, _, _, _, _, h7⟩ :=
       planCore_spec (rows := rowsOf t.outerDims) (tgt := some (arrOffset W t.a)) hW0
-        (alignmentOffset_lt (cfg := cfg) hW0 rhs) hc.1.1
+        (alignmentOffset_lt (cfg := cfg) hW0 rhs) hc.1.1.2
     obtain ⟨_, hs0, his, _⟩ := h7 h
     generalize (planCore W t.n (rowsOf t.outerDims) (rhs.alignmentOffset cfg W) (some (arrOffset W t.a))).istart
       = is at his ⊢
@@ -154,7 +159,7 @@ theorem C05_reduce_body_aligned (cfg : Cfg) {W : Nat} (hW : 1 < W) (outerDims : 
     rw [if_pos hc]
     simp only [Bool.and_eq_true, decide_eq_true_eq] at hc
     obtain ⟨_, _, _, _, _, _, h7⟩ :=
-      planCore_spec (rows := rowsOf outerDims) (tgt := none) hW0 (alignmentOffset_lt (cfg := cfg) hW0 rhs) hc.1
+      planCore_spec (rows := rowsOf outerDims) (tgt := none) hW0 (alignmentOffset_lt (cfg := cfg) hW0 rhs) hc.1.2
     obtain ⟨_, hs0, his, _⟩ := h7 h
     generalize (planCore W n (rowsOf outerDims) (rhs.alignmentOffset cfg W) none).istart = is at his ⊢
     refine ⟨?_, ?_⟩
@@ -224,15 +229,15 @@ theorem C05_negotiation_forces_scalar_reduce (cfg : Cfg) (W : Nat) (outerDims : 
     · exact ⟨rfl, rfl, rfl⟩
 
 /-- and conversely the packet loop runs (over at least one packet per row) exactly when the negotiation succeeds
-    on a long enough contiguous statement -/
+    on a long enough contiguous statement whose right-hand side has the vectorizable trait -/
 theorem C05_negotiation_vector_taken (cfg : Cfg) {W : Nat} (hW : 1 < W) (t : View) (rhs : Expr)
-    (hn : 2 * W ≤ t.n) (ht : arrContig cfg W t = true) (hr : rhs.allContig cfg W = true)
+    (hv : rhs.vectorizable = true) (hn : 2 * W ≤ t.n) (ht : arrContig cfg W t = true) (hr : rhs.allContig cfg W = true)
     (hs : rhs.alignmentOffset cfg W = (arrOffset W t.a : Int)) :
     (assignPlan cfg W t rhs).istart = arrOffset W t.a ∧
     (assignPlan cfg W t rhs).istart + W ≤ (assignPlan cfg W t rhs).iend := by
   have hW0 : 0 < W := by omega
-  have hc : (decide (2 * W ≤ t.n) && arrContig cfg W t && rhs.allContig cfg W) = true := by
-    simp [hn, ht, hr]
+  have hc : (rhs.vectorizable && decide (2 * W ≤ t.n) && arrContig cfg W t && rhs.allContig cfg W) = true := by
+    simp [hv, hn, ht, hr]
   have hnf : ¬ (rhs.alignmentOffset cfg W < 0 ∨
       tgtMismatch (rhs.alignmentOffset cfg W) (some (arrOffset W t.a))) := by
     intro h; rcases h with h | h
@@ -291,7 +296,7 @@ theorem C05_rows_aligned_partial (cfg : Cfg) {W : Nat} (hW : 1 < W) (t : View) (
     (∀ v ∈ rhs.arrLeaves, (v.outer.length ≤ 1 ∨ cfg.allOuterChecked = true) → ∀ (idx : List Nat) (j : Nat),
       ((v.a : Int) + rowStart v.outer idx + (assignPlan cfg W t rhs).istart + j * W) % (W : Int) = 0) := by
   obtain ⟨ha, hl⟩ := C05_body_aligned_partial cfg hW t rhs h
-  have hc : (decide (2 * W ≤ t.n) && arrContig cfg W t && rhs.allContig cfg W) = true := by
+  have hc : (rhs.vectorizable && decide (2 * W ≤ t.n) && arrContig cfg W t && rhs.allContig cfg W) = true := by
     apply Classical.byContradiction; intro hc
     unfold assignPlan at h; rw [if_neg (by omega), if_neg hc] at h; exact absurd h (Nat.lt_irrefl _)
   simp only [Bool.and_eq_true, decide_eq_true_eq] at hc
@@ -323,7 +328,7 @@ theorem C05_rows_aligned {W : Nat} (hW : 1 < W) (t : View) (rhs : Expr)
   obtain ⟨h1, h2⟩ := C05_rows_aligned_partial Cfg.repaired hW t rhs h
   refine ⟨h1 (Or.inr rfl), fun v hv => h2 v hv (Or.inr rfl), ?_⟩
   obtain ⟨_, _, hf⟩ := C05_body_aligned Cfg.repaired rfl hW t rhs h
-  have hc : (decide (2 * W ≤ t.n) && arrContig Cfg.repaired W t && rhs.allContig Cfg.repaired W) = true := by
+  have hc : (rhs.vectorizable && decide (2 * W ≤ t.n) && arrContig Cfg.repaired W t && rhs.allContig Cfg.repaired W) = true := by
     apply Classical.byContradiction; intro hc
     unfold assignPlan at h; rw [if_neg (by omega), if_neg hc] at h; exact absurd h (Nat.lt_irrefl _)
   simp only [Bool.and_eq_true, decide_eq_true_eq] at hc
@@ -379,15 +384,129 @@ theorem C05_reduce_split_value {α : Type} (op : α → α → α) (e : α)
   rw [fold_lanes op e hassoc hcomm hid, hid, ← foldIdx_append op e hassoc hcomm hid]
   exact foldIdx_perm op e hassoc hcomm x hp
 
+/-! ## the `is_vectorizable` trait -/
+
+/-- **census.** Every expression node class of include/adept/*.h (the table is regenerated from the sources on every run)
+    declares its `is_vectorizable` trait in a form that obeys the rule `Node.sound`: element-wise classes the conjunction of
+    the traits of ALL their operands, of their operation's packet support and (two-sided classes) of the equality of the
+    element types; `Spread` excludes exactly the LAST dimension of its result; the array leaves and `Scalar` their constants;
+    every other class `false` (declared or inherited from `Expression`).  In particular a class without
+    `packet_at_location_` never declares the trait, and the table is not empty. -/
+theorem C05_every_node_vectorizable_trait_sound :
+    TraitCensus.vecNodes.all TraitCensus.Node.sound = true ∧
+    TraitCensus.vecNodes.all TraitCensus.Node.noPacketMeansFalse = true ∧
+    TraitCensus.vecNodes.length ≥ 12 := by
+  decide
+
+open TraitCensus in
+/-- **the model's trait is the census's trait.** For every constructor of the model's expression tree, `Expr.vectorizable` is
+    the meaning (`Trait.eval`) of the declaration found in the sources for the class(es) the constructor stands for. -/
+theorem C05_model_nodes_match_census :
+    (∀ v, (Expr.arr v).vectorizable = evalCls "Array" [] true 0 0) ∧
+    (∀ a d, (Expr.fixed a d).vectorizable = evalCls "FixedArray" [] true 0 0) ∧
+    (Expr.agn.vectorizable = evalCls "Scalar" [] true 0 0) ∧
+    (∀ b e, (Expr.un b e).vectorizable = evalCls "UnaryOperation" [e.vectorizable] b 0 0) ∧
+    (∀ b e, (Expr.un b e).vectorizable = evalCls "BinaryOpScalarLeft" [e.vectorizable] b 0 0) ∧
+    (∀ b e, (Expr.un b e).vectorizable = evalCls "BinaryOpScalarRight" [e.vectorizable] b 0 0) ∧
+    (∀ e, (Expr.un true e).vectorizable = evalCls "NoAlias" [e.vectorizable] true 0 0) ∧
+    (∀ e, (Expr.un false e).vectorizable = evalCls "UnaryBoolOperation" [e.vectorizable] false 0 0) ∧
+    (∀ b l r, (Expr.bin b l r).vectorizable = evalCls "BinaryOperation" [l.vectorizable, r.vectorizable] b 0 0) ∧
+    (∀ (d r : Nat) v, d ≤ r → (Expr.spread (d == r) v).vectorizable = evalCls "Spread" [] true d r) ∧
+    (∀ l r, (Expr.outer l r).vectorizable = evalCls "OuterProduct" [] true 0 0) ∧
+    (Expr.plain.vectorizable = evalCls "IndexedArray" [] true 0 0) ∧
+    (Expr.plain.vectorizable = evalCls "SpecialMatrix" [] true 0 0) := by
+  have hA : traitOf "Array" = some .packetType := by decide
+  have hF : traitOf "FixedArray" = some .packetType := by decide
+  have hS : traitOf "Scalar" = some .constTrue := by decide
+  have hU : traitOf "UnaryOperation" = some (.conj ["R"] true false) := by decide
+  have hL : traitOf "BinaryOpScalarLeft" = some (.conj ["R"] true true) := by decide
+  have hR : traitOf "BinaryOpScalarRight" = some (.conj ["L"] true true) := by decide
+  have hN : traitOf "NoAlias" = some (.conj ["R"] false false) := by decide
+  have hUB : traitOf "UnaryBoolOperation" = some .absent := by decide
+  have hB : traitOf "BinaryOperation" = some (.conj ["L", "R"] true true) := by decide
+  have hSp : traitOf "Spread" = some (.spreadDimNe 0) := by decide
+  have hO : traitOf "OuterProduct" = some .constFalse := by decide
+  have hI : traitOf "IndexedArray" = some .absent := by decide
+  have hM : traitOf "SpecialMatrix" = some .constFalse := by decide
+  refine ⟨?_, ?_, ?_, ?_, ?_, ?_, ?_, ?_, ?_, ?_, ?_, ?_, ?_⟩
+  · intro v; simp [evalCls, hA, Trait.eval, Expr.vectorizable]
+  · intro a d; simp [evalCls, hF, Trait.eval, Expr.vectorizable]
+  · simp [evalCls, hS, Trait.eval, Expr.vectorizable]
+  · intro b e; cases b <;> cases h : e.vectorizable <;> simp [evalCls, hU, Trait.eval, Expr.vectorizable, h]
+  · intro b e; cases b <;> cases h : e.vectorizable <;> simp [evalCls, hL, Trait.eval, Expr.vectorizable, h]
+  · intro b e; cases b <;> cases h : e.vectorizable <;> simp [evalCls, hR, Trait.eval, Expr.vectorizable, h]
+  · intro e; cases h : e.vectorizable <;> simp [evalCls, hN, Trait.eval, Expr.vectorizable, h]
+  · intro e; simp [evalCls, hUB, Trait.eval, Expr.vectorizable]
+  · intro b l r
+    cases b <;> cases h1 : l.vectorizable <;> cases h2 : r.vectorizable <;>
+      simp [evalCls, hB, Trait.eval, Expr.vectorizable, h1, h2]
+  · intro d r v hdr
+    simp only [evalCls, hSp, Trait.eval, Expr.vectorizable]
+    by_cases h : d = r
+    · subst h; simp
+    · have : (d == r) = false := by simpa using h
+      rw [this]; simp; omega
+  · intro l r; simp [evalCls, hO, Trait.eval, Expr.vectorizable]
+  · simp [evalCls, hI, Trait.eval, Expr.vectorizable]
+  · simp [evalCls, hM, Trait.eval, Expr.vectorizable]
+
+/-- **a non-vectorizable node anywhere.** A right-hand side is non-vectorizable exactly when SOME node of its tree — at any
+    depth — is a spread along the last dimension, an outer product, an operation without a packet form (or over two element
+    types), or a leaf with `Expression`'s fall-back trait. -/
+theorem C05_nonvectorizable_node_anywhere (rhs : Expr) :
+    rhs.vectorizable = false ↔ ∃ s ∈ rhs.subterms, s.nonVecNode = true := by
+  constructor
+  · exact subterms_of_not_vectorizable rhs
+  · rintro ⟨s, hs, hn⟩
+    cases h : rhs.vectorizable with
+    | false => rfl
+    | true => have := vectorizable_of_subterms rhs h s hs; rw [this] at hn; exact absurd hn (by decide)
+
+/-- **such a statement runs NO packets.** Whatever the target, the lengths and the addresses: an assignment or a reduction
+    whose right-hand side contains a non-vectorizable node takes the element-by-element overload — no vectorizable branch is
+    entered, `istartvec = iendvec = 0`, no packet is processed (what hook H2 reports as `vec=0 is=0 ie=0 pk=0`).  Conversely a
+    statement that processes a packet has a right-hand side every node of which is packet-safe. -/
+theorem C05_nonvectorizable_runs_no_packets (cfg : Cfg) (W : Nat) (t : View) (outerDims : List Nat) (n : Nat) (rhs : Expr) :
+    ((∃ s ∈ rhs.subterms, s.nonVecNode = true) →
+      assignPlan cfg W t rhs = Plan.scalar ∧ reducePlan cfg W outerDims n rhs = Plan.scalar) ∧
+    ((assignPlan cfg W t rhs).vec = true ∨ 0 < (assignPlan cfg W t rhs).packets ∨
+      (reducePlan cfg W outerDims n rhs).vec = true ∨ 0 < (reducePlan cfg W outerDims n rhs).packets →
+      ∀ s ∈ rhs.subterms, s.nonVecNode = false) := by
+  have key : rhs.vectorizable = false →
+      assignPlan cfg W t rhs = Plan.scalar ∧ reducePlan cfg W outerDims n rhs = Plan.scalar := by
+    intro h
+    unfold assignPlan reducePlan
+    simp [h]
+  refine ⟨fun h => key ((C05_nonvectorizable_node_anywhere rhs).mpr h), ?_⟩
+  intro h
+  cases hv : rhs.vectorizable with
+  | true => exact vectorizable_of_subterms rhs hv
+  | false =>
+    obtain ⟨h1, h2⟩ := key hv
+    rw [h1, h2] at h
+    simp [Plan.scalar] at h
+
 /-! ## non-vacuity -/
 
 /-- the hypotheses above are met: a 19-element float statement (`W = 4`) whose target and two operands all sit
     3 elements past a boundary takes the packet path with `istartvec = 1`, `iendvec = 17`, four packets -/
 example : assignPlan Cfg.pinned 4 { a := 35, n := 19 }
-    (.bin (.arr { a := 35, n := 19 }) (.un (.arr { a := 7, n := 19 }))) = ⟨true, 1, 17, 4⟩ := by decide
+    (.bin true (.arr { a := 35, n := 19 }) (.un true (.arr { a := 7, n := 19 }))) = ⟨true, 1, 17, 4⟩ := by decide
 
 /-- and a clash sends the same statement to the scalar loop -/
 example : assignPlan Cfg.pinned 4 { a := 35, n := 19 }
-    (.bin (.arr { a := 35, n := 19 }) (.arr { a := 8, n := 19 })) = ⟨true, 0, 0, 0⟩ := by decide
+    (.bin true (.arr { a := 35, n := 19 }) (.arr { a := 8, n := 19 })) = ⟨true, 0, 0, 0⟩ := by decide
+
+/-- spread along the FIRST dimension of a 2 x 19 float result is vectorizable and takes the packet path in both rows … -/
+example : assignPlan Cfg.pinned 4 { a := 35, outerDims := [2], outer := [20], n := 19 }
+    (.bin true (.spread false { a := 7, n := 19 }) (.agn)) = ⟨true, 1, 17, 8⟩ := by decide
+
+/-- … the same statement with the spread along the LAST dimension, or with `pow` instead of `+`, runs no packet -/
+example : assignPlan Cfg.pinned 4 { a := 35, outerDims := [2], outer := [20], n := 19 }
+    (.bin true (.spread true { a := 7, n := 2 }) (.agn)) = Plan.scalar := by decide
+example : assignPlan Cfg.pinned 4 { a := 35, outerDims := [2], outer := [20], n := 19 }
+    (.bin false (.spread false { a := 7, n := 19 }) (.agn)) = Plan.scalar := by decide
+example : ∃ s ∈ (Expr.bin true (.un true (.spread true { a := 7, n := 2 })) (.agn)).subterms, s.nonVecNode = true :=
+  ⟨.spread true { a := 7, n := 2 }, by simp [Expr.subterms], rfl⟩
 
 end Adept.Simd
